@@ -555,7 +555,7 @@ def _iee_cfg_case(maxlen: int):
         "family": st.sampled_from(_IEE_FAMILIES), "origin": st.sampled_from([0x30000000, 0x04000000, 0x28000000]),
         "regions": _regions(_iee_region(_IEE_MODELLED), 2, 3), "data": st.lists(data, min_size=1, max_size=3),
         "ibkek1": st.binary(min_size=32, max_size=32), "ibkek2": st.binary(min_size=32, max_size=32), "first": st.integers(0, 4),
-        "num_form": st.sampled_from(["int", "hex"]), "exports": st.sampled_from([1, 1, 2, 3]),
+        "num_form": st.sampled_from(["int", "hex"]), "exports": st.sampled_from([1, 1, 2, 3]), "data_form": st.sampled_from(["bin", "bin", "s19", "hex"]),
     })
 
 
@@ -581,11 +581,22 @@ def run_iee_cfg(case, o: Oracle, work: str) -> None:
     if ib1 == ib2:
         ib2 = bytes([ib2[0] ^ 1]) + ib2[1:]
     cfg = {"family": case["family"], "output_folder": os.path.join(wdir, "out"), "keyblob_address": num(kb_addr), "data_blobs": []}
-    for i, (addr, content) in enumerate(datas):
-        p = os.path.join(wdir, "data%d.bin" % i)
-        with open(p, "wb") as f:
-            f.write(content)
-        cfg["data_blobs"].append({"data": p, "address": num(addr)})
+    # without an address in the configuration the image starts at the first key blob's start address: the pieces must not lie before it
+    if case.get("data_form") in ("s19", "hex") and len(datas) >= 2 and min(a for a, _ in datas) >= min(s_ for s_, _ in spans):
+        # one addressed text file (S-record / Intel HEX) that holds all pieces as segments of their own addresses
+        from vf.ref import painter
+
+        o.label("data:segments_in_one_file", "data_form:" + case["data_form"])
+        p = os.path.join(wdir, "data_all." + case["data_form"])
+        with open(p, "w", encoding="utf-8") as f:
+            f.write((painter.write_srec if case["data_form"] == "s19" else painter.write_ihex)([(a, c) for a, c in datas]))
+        cfg["data_blobs"].append({"data": p})
+    else:
+        for i, (addr, content) in enumerate(datas):
+            p = os.path.join(wdir, "data%d.bin" % i)
+            with open(p, "wb") as f:
+                f.write(content)
+            cfg["data_blobs"].append({"data": p, "address": num(addr)})
     kbs = []
     regs = []
     for r, (s, e) in zip(regions, spans):
